@@ -1257,3 +1257,13 @@ pub(crate) enum CompilationItem<W, R, T> {
     Overload(Vec<TracedOverload<W, R, T>>),
     Type(Arc<XType>),
 }
+
+#[cfg(feature = "verif")]
+impl<'p, W, R, T> CompilationScope<'p, W, R, T> {
+    pub(crate) fn verif_functions(&self) -> &HashMap<Identifier, Vec<Overload<W, R, T>>> {
+        &self.functions
+    }
+    pub(crate) fn verif_variables(&self) -> &HashMap<Identifier, usize> {
+        &self.variables
+    }
+}
